@@ -305,7 +305,7 @@ fn forge(rng: &mut Rng, vh: &packed::VerifiableHeader) -> (packed::VerifiableHea
     }
 }
 
-fn mutate(rng: &mut Rng, base: &Resp, chain: &SynChain, fork: &SynChain) -> (Resp, &'static str) {
+pub(crate) fn mutate_response(rng: &mut Rng, base: &Resp, chain: &SynChain, fork: &SynChain) -> (Resp, &'static str) {
     let mut r = Resp { last: base.last.clone(), headers: base.headers.clone(), proof: base.proof.clone() };
     let nh = r.headers.len() as u64;
     let what: &'static str = match rng.below(16) {
@@ -347,6 +347,7 @@ fn state_fingerprint(c: &Client, peer: PeerIndex) -> String {
 
 #[allow(clippy::too_many_arguments)]
 pub(crate) fn handler_case(out: &mut Out, id: &str, tags: &[&str], c: &mut Client, peer: PeerIndex, resp: &Resp, honest: bool, identical_to_honest: bool, tau: u64, descr: &str) -> bool {
+    intern_reset(true);
     let before = c.state(peer);
     let before_fp = state_fingerprint(c, peer);
     let before_trusted = format!("{}#{}", obs_prove(&before).to_coq(), obs_store(c).to_coq());
@@ -396,6 +397,7 @@ pub(crate) fn handler_case(out: &mut Out, id: &str, tags: &[&str], c: &mut Clien
         Err("[C05-honest-ignored] the honest response neither changed the proved state nor triggered a re-check".to_string())
     } else { Ok(()) };
     out.case(id, tags, &model, &v, oracle, descr);
+    intern_reset(false);
     changed
 }
 
@@ -441,7 +443,7 @@ fn part_b(rng: &mut Rng, n: u64, out: &mut Out) {
             if m == 0 {
                 handler_case(out, &format!("handler-{}-honest", i), &["handler", "honest", shape], &mut c, peer, &base, true, true, tau, &descr_base);
             } else {
-                let (r, what) = mutate(rng, &base, &chain, &fork);
+                let (r, what) = mutate_response(rng, &base, &chain, &fork);
                 let same = r.message().as_slice() == base.message().as_slice();
                 handler_case(out, &format!("handler-{}-m{}", i, m), &["handler", "mutated", what, shape], &mut c, peer, &r, false, same, tau,
                     &format!("{}; mutation: {}", descr_base, what));
